@@ -142,6 +142,21 @@ def one_case(ck: Check, reqs: list, expect: list, diffuse: bool):
         ck.fail("merge is not commutative", {**sig, "check": "merge_comm"}, case)
     if type(c_copy) is not cls:
         ck.fail("class changed by merge", {**sig, "check": "class"}, case)
+    # --- the second operand may BE the first (or share its record): merging a droplet with itself doubles the volume and keeps the centre
+    if a.radius > 0:
+        for how in ("same object", "shared record"):
+            s1 = a.copy()
+            s2 = s1 if how == "same object" else cls.from_data(s1.data)
+            p_before, v_before = np.array(s1.position, dtype=float), float(s1.volume)
+            try:
+                s1.merge(s2, inplace=True)
+                okm = rel_close(float(s1.volume), 2 * v_before, 1e-12) and np.allclose(s1.position, p_before, rtol=1e-12, atol=1e-12 * max(1e-300, abs(p_before).max()))
+                msg = f"volume {v_before!r} -> {float(s1.volume)!r}, centre {p_before.tolist()} -> {np.asarray(s1.position).tolist()}"
+            except Exception as e:  # noqa: BLE001
+                okm, msg = False, f"raised {type(e).__name__}: {e}"
+            ck.count("merge_with_itself")
+            if not okm:
+                ck.fail(f"in-place merge of a droplet with itself ({how}): {msg}", {**sig, "check": "merge_centre", "aliased_operands": how}, case)
     # --- model requests: the regenerated scalar merge applied to EVERY coordinate (merge_vector_conserves: one radius, one position vector)
     w1 = a.data["interface_width"] if diffuse else 0.0
     w2 = b.data["interface_width"] if diffuse else 0.0
